@@ -270,25 +270,32 @@ func ruleR3(c *Ctx, id string) {
 		wantStart := map[string]string{"allocInums": "BitmapInodeStart", "freeInums": "BitmapInodeStart", "allocBnums": "BitmapBlockStart", "freeBnums": "BitmapBlockStart"}
 		wantPol := map[string]bool{"allocInums": true, "allocBnums": true, "freeInums": false, "freeBnums": false}
 		seen := map[string]int{}
-		for _, call := range P.CallsIn(V.PreCommit, funcIs(V.WriteBits)) {
-			n, f, _, _ := loadedField(argN(call, 0))
-			if n != V.AllocTxn {
-				R.Fail(id, "alloctxn.(*AllocTxn).PreCommit|WriteBits arg", P.Pos(call.Pos()), "WriteBits is given one of the four lists", "first argument is not a load of an AllocTxn list")
-				continue
-			}
-			seen[f]++
-			start := ""
-			if sc, ok := stripConv(argN(call, 1)).(*ssa.Call); ok {
-				if cal := sc.Call.StaticCallee(); cal != nil {
-					start = cal.Name()
+		for _, sc := range scopesOf(V.PreCommit) {
+			for _, call := range P.CallsIn(sc.Fn, funcIs(V.WriteBits)) {
+				n, f, _, _ := loadedFieldS(argN(call, 0), sc.S)
+				if n != V.AllocTxn {
+					R.Fail(id, "alloctxn.(*AllocTxn).PreCommit|WriteBits arg", P.Pos(call.Pos()), "WriteBits is given one of the four lists", "first argument is not a load of an AllocTxn list")
+					continue
 				}
+				seen[f]++
+				start := ""
+				if scall, ok := sc.S.resolve(argN(call, 1)).(*ssa.Call); ok {
+					if cal := scall.Call.StaticCallee(); cal != nil {
+						start = cal.Name()
+					}
+				}
+				pol, polOK := constBool(sc.S.resolve(argN(call, 2)))
+				ok := start == wantStart[f] && polOK && pol == wantPol[f]
+				// executed on every path of PreCommit: in its own body, and the helper call in PreCommit's
+				thisCall := call
+				always := MustAfter(sc.Fn, func(in ssa.Instruction) bool { return in == thisCall }, nil)(sc.Fn.Blocks[0].Instrs[0])
+				if sc.Via != nil {
+					via := ssa.Instruction(sc.Via)
+					vf := sc.Via.Parent()
+					always = always && MustAfter(vf, func(in ssa.Instruction) bool { return in == via }, nil)(vf.Blocks[0].Instrs[0])
+				}
+				R.Check(ok && always, id, "alloctxn.(*AllocTxn).PreCommit|WriteBits("+f+")", P.Pos(call.Pos()), fmt.Sprintf("list %s is written to the bitmap at %s with polarity %v on every path", f, wantStart[f], wantPol[f]), "bitmap, polarity and all-paths agree", fmt.Sprintf("found start=%s polarity=%v(const=%v) on-all-paths=%v", start, pol, polOK, always))
 			}
-			pol, polOK := constBool(argN(call, 2))
-			ok := start == wantStart[f] && polOK && pol == wantPol[f]
-			// executed on every path of PreCommit
-			thisCall := call
-			always := MustAfter(V.PreCommit, func(in ssa.Instruction) bool { return in == thisCall }, nil)(V.PreCommit.Blocks[0].Instrs[0])
-			R.Check(ok && always, id, "alloctxn.(*AllocTxn).PreCommit|WriteBits("+f+")", P.Pos(call.Pos()), fmt.Sprintf("list %s is written to the bitmap at %s with polarity %v on every path", f, wantStart[f], wantPol[f]), "bitmap, polarity and all-paths agree", fmt.Sprintf("found start=%s polarity=%v(const=%v) on-all-paths=%v", start, pol, polOK, always))
 		}
 		for f := range wantStart {
 			if seen[f] != 1 {
@@ -513,12 +520,25 @@ func ruleR4(c *Ctx, id string) {
 	}
 	serving := P.Reach(roots, func(f *ssa.Function) bool { return !IsRepoFunc(f) })
 	// constructors: functions calling obj.MkLog
+	// (directly, or through a helper that always does)
+	mkAlways := P.NewAlways(callTo(V.MkLog))
+	mkInstrs := func(fn *ssa.Function) []ssa.Instruction {
+		var out []ssa.Instruction
+		for _, b := range fn.Blocks {
+			for _, in := range b.Instrs {
+				if _, ok := in.(*ssa.Call); ok && mkAlways.Instr(in) {
+					out = append(out, in)
+				}
+			}
+		}
+		return out
+	}
 	var ctors []*ssa.Function
 	for _, fn := range P.RepoFuncs() {
 		if strings.HasPrefix(relPkg(fn), "cmd/") {
 			continue
 		}
-		if len(P.CallsIn(fn, funcIs(V.MkLog))) > 0 {
+		if len(mkInstrs(fn)) > 0 {
 			ctors = append(ctors, fn)
 		}
 	}
@@ -532,7 +552,7 @@ func ruleR4(c *Ctx, id string) {
 		// every constructor call chain to this site
 		decided := false
 		for _, k := range ctors {
-			mk := P.CallsIn(k, funcIs(V.MkLog))
+			mk := mkInstrs(k)
 			for _, b := range k.Blocks {
 				for _, in := range b.Instrs {
 					if _, ok := in.(*ssa.Call); !ok {
@@ -595,13 +615,42 @@ func onFormatBranch(c *Ctx, in ssa.Instruction) bool {
 		if !ok {
 			continue
 		}
-		bo, ok := ifi.Cond.(*ssa.BinOp)
-		if !ok || bo.Op != token.EQL {
-			continue
+		isFresh := func(v ssa.Value) bool {
+			bo, ok := v.(*ssa.BinOp)
+			if !ok || bo.Op != token.EQL {
+				return false
+			}
+			n, f, _, _ := loadedField(bo.X)
+			z, isz := constInt(bo.Y)
+			return n == c.V.Inode && f == "Kind" && isz && z == 0
 		}
-		n, f, _, _ := loadedField(bo.X)
-		z, isz := constInt(bo.Y)
-		if n != c.V.Inode || f != "Kind" || !isz || z != 0 {
+		okCond := isFresh(ifi.Cond)
+		if !okCond {
+			// the test made by a helper and handed back as one of its results
+			cv := stripConv(ifi.Cond)
+			idx := 0
+			var hc *ssa.Call
+			if ex, isE := cv.(*ssa.Extract); isE {
+				hc, _ = ex.Tuple.(*ssa.Call)
+				idx = ex.Index
+			} else {
+				hc, _ = cv.(*ssa.Call)
+			}
+			if hc != nil && hc.Call.StaticCallee() != nil && IsRepoFunc(hc.Call.StaticCallee()) && hc.Call.StaticCallee().Blocks != nil {
+				h := hc.Call.StaticCallee()
+				n, all := 0, true
+				for _, hb := range h.Blocks {
+					if r, isR := hb.Instrs[len(hb.Instrs)-1].(*ssa.Return); isR {
+						n++
+						if idx >= len(r.Results) || !isFresh(stripConv(r.Results[idx])) {
+							all = false
+						}
+					}
+				}
+				okCond = all && n > 0
+			}
+		}
+		if !okCond {
 			continue
 		}
 		t := b.Succs[0]
@@ -753,20 +802,27 @@ func ruleR6(c *Ctx, id string) {
 			return n > 0
 		}
 		okLoop := false
-		for _, br := range branches(do) {
-			if br.Cond.Op != token.ILLEGAL {
-				continue
-			}
-			if phi, ok := br.Cond.X.(*ssa.Phi); ok {
-				for _, e := range phi.Edges {
-					if carries(e) {
-						// true side stays in the loop (reaches the Shrink call again)
-						if len(br.True.Instrs) > 0 && (reachableFrom(br.True.Instrs[0], at) || br.True == at.Block()) {
-							okLoop = true
+		loopIn := func(fn *ssa.Function, at ssa.Instruction, carries func(ssa.Value) bool) {
+			for _, br := range branches(fn) {
+				if br.Cond.Op != token.ILLEGAL {
+					continue
+				}
+				if phi, ok := br.Cond.X.(*ssa.Phi); ok {
+					for _, e := range phi.Edges {
+						if carries(e) {
+							// true side stays in the loop (reaches the Shrink call again)
+							if len(br.True.Instrs) > 0 && (reachableFrom(br.True.Instrs[0], at) || br.True == at.Block()) {
+								okLoop = true
+							}
 						}
 					}
 				}
 			}
+		}
+		loopIn(do, at, carries)
+		if !okLoop && st.sc.Fn != do {
+			// the whole loop lives in the helper
+			loopIn(st.sc.Fn, st.s, func(v ssa.Value) bool { return v == ssa.Value(scv) })
 		}
 		R.Check(okLoop, id, "shrinker.DoShrink|loops while Shrink reports more", P.Pos(st.s.Pos()), "the loop condition is the result of Inode.Shrink: freeing continues until the inode is no longer shrinking", "loop condition carries Shrink's result", "DoShrink stops although blocks remain to be freed: the rest of a large file is never reclaimed (until the inode number is reused)")
 	}
